@@ -28,7 +28,7 @@ RULE = ('five exhaustive sub-spaces: (1) every permission value 0..07777 on regu
 ASSUMPTIONS = ['oracle = os.lstat / stat.filemode / pwd / grp / hashlib / stat(1) %W for the birth time',
                'for zip members is_dir/is_file/is_symlink are derived from the member name (C19), only mode string, permission and '
                'special-file booleans are checked against the stored unix mode',
-               'contains() is asserted for valid UTF-8 content only', 'runs as root: unreadable modes do not block content reads']
+               'runs as root: unreadable modes do not block content reads']
 BUDGET = {'quick': 55, 'thorough': 600}
 
 PERM_COLS = ['user_read', 'user_write', 'user_exec', 'group_read', 'group_write', 'group_exec', 'other_read', 'other_write',
@@ -385,9 +385,7 @@ def eval_group(env, group, tier):
                 for n in tree:
                     has = n == 'all' or n.startswith('c%02d_' % ci)
                     if n == 'nocaps':
-                        e2[n] = ('', '') if False else (rows.get(n, ('', ''))[0], rows.get(n, ('', ''))[1])
-                        if e2[n][0] not in ('', 'false') or e2[n][1] not in ('', 'false'):
-                            e2[n] = ('false', 'false')
+                        e2[n] = ('false', 'false')      # a boolean: a file without capabilities does not have this one
                     else:
                         e2[n] = (b(has), b(has))
                 g2 = dict(group, cap=cname)
@@ -588,6 +586,10 @@ def eval_group(env, group, tier):
                 tree['needle_start'] = F(data=(needle.encode() + fill(k))[:k])
                 tree['needle_end'] = F(data=fill(k - len(needle)) + needle.encode())
                 tree['needle_none'] = F(data=fill(k))
+                # text in another encoding and binary data around the needle
+                tree['needle_latin1'] = F(data=(b'caf\xe9 ' + needle.encode() + b' na\xefve\n' + fill(k))[:max(k, 12)])
+                tree['needle_bin'] = F(data=bytes((i * 7) % 256 for i in range(k // 2)) + needle.encode() + bytes((i * 11) % 256 for i in range(k // 2)))
+                tree['needle_cut'] = F(data=b'\xff\xfe' + needle.encode()[:-1] + b'\xff' + fill(k))
                 for bound in (8192, 32768, 65536):
                     if k > bound + 3:
                         tree['needle_x%d' % bound] = F(data=fill(bound - 3) + needle.encode() + fill(k - bound - 3))
@@ -601,11 +603,7 @@ def eval_group(env, group, tier):
                     continue
                 data = node['data'] if isinstance(node['data'], bytes) else node['data'].encode()
                 h = lambda f: f(data).hexdigest()
-                try:
-                    txt = data.decode('utf-8')
-                    cont = b(needle in txt)
-                except UnicodeDecodeError:
-                    cont = rows.get(n, [''] * 11)[9]   # not asserted
+                cont = b(needle.encode() in data)       # the bytes are searched, whatever encoding the rest of the file has
                 exp[n] = (h(hashlib.sha1), h(hashlib.sha256), h(hashlib.sha512), h(hashlib.sha3_512), h(hashlib.sha256), h(hashlib.sha512),
                           h(hashlib.sha3_512), str(data.count(b'\n')), b(data[:2] == b'#!'), cont, str(len(data)))
             rows.pop('adir', None)
